@@ -35,6 +35,7 @@ func main() {
 	census := flag.String("census", "", "debug: comma-separated fields to print writers of")
 	dumpReg := flag.Bool("registry", false, "debug: print the extracted registry")
 	dumpCFG := flag.String("cfg", "", "debug: print the CFG of a function")
+	dumpSCC := flag.Bool("sccs", false, "debug: print recursive call-graph components")
 	flag.Parse()
 	debug.SetGCPercent(200)
 
@@ -42,6 +43,15 @@ func main() {
 		for _, id := range sortedKeys(ruleRegistry) {
 			fmt.Printf("%-28s floor=%-3d %s\n", id, ruleRegistry[id].Floor, ruleRegistry[id].Doc)
 		}
+		return
+	}
+	if *dumpSCC {
+		c, err := Load(*repo, buildConfigs["default"])
+		if err != nil {
+			fmt.Println(err)
+			os.Exit(1)
+		}
+		debugSCCs(c)
 		return
 	}
 	if *dumpCFG != "" {
